@@ -259,7 +259,7 @@ type Interpreter struct {
 	scopes   map[string]*scope   // package level scopes, indexed by import path
 	srcPkg   imports             // source packages used in interpreter, indexed by path
 	pkgNames map[string]string   // package names, indexed by import path
-	done     chan struct{}       // for cancellation of channel operations
+	done     chan struct{}       // for cancellation of channel operations, closed and replaced by stop
 	running  map[*epoch]struct{} // evaluations in progress, see begin
 	roots    []*node
 	generic  map[string]*node
@@ -384,6 +384,7 @@ func New(options Options) *Interpreter {
 		rdir:     map[string]bool{},
 		hooks:    &hooks{},
 		generic:  map[string]*node{},
+		done:     make(chan struct{}),
 		running:  map[*epoch]struct{}{},
 	}
 
@@ -569,10 +570,6 @@ func (interp *Interpreter) EvalPath(path string) (res reflect.Value, err error) 
 // result computed by the interpreter, and a non nil error in case of failure.
 // The main function of the main package is executed if present.
 func (interp *Interpreter) EvalPathWithContext(ctx context.Context, path string) (res reflect.Value, err error) {
-	interp.mutex.Lock()
-	interp.done = make(chan struct{})
-	interp.mutex.Unlock()
-
 	done := make(chan struct{})
 	go func() {
 		defer close(done)
@@ -620,10 +617,6 @@ func (interp *Interpreter) eval(src, name string, inc bool) (res reflect.Value, 
 func (interp *Interpreter) EvalWithContext(ctx context.Context, src string) (reflect.Value, error) {
 	var v reflect.Value
 	var err error
-
-	interp.mutex.Lock()
-	interp.done = make(chan struct{})
-	interp.mutex.Unlock()
 
 	done := make(chan struct{})
 	go func() {
